@@ -29,7 +29,7 @@ SupportedTerms == CollectTerms \cup FindTerms \cup {"collect_x", "count", "for_e
 
 \* programs whose runs this pass tracks
 Applicable(ev) ==
-  /\ ev.mode \in {"rand", "replay"}      \* ("hold" runs park a worker inside next(): not a linearisation of whole pulls)
+  /\ ev.mode \in {"rand", "replay", "free"}   \* ("hold" runs park a worker inside next(): not a linearisation of whole pulls)
   /\ ~IsBig(ev.p)
   /\ ev.p.src \in {"vec", "slice", "range", "iter", "iterx", "deque", "list", "btree", "dequeref", "btreeref",
                   "hashset", "hashsetref", "heap", "heapref", "listref"}
@@ -39,11 +39,15 @@ Applicable(ev) ==
   /\ FinalParams(ev.p).csv < 1000000 /\ FinalParams(ev.p).ntv < 1000000
   /\ CalcNumThreads(IF LenKnown(ev.p.src) THEN Len(ev.p.input) ELSE -1,
                     FinalParams(ev.p).nt, FinalParams(ev.p).ntv, Avail) <= MaxW
+  \* free-running programs only when every group is sequential: one thread, so the trace is the order
+  \* (evaluated last: InitState is defined for supported programs only)
+  /\ \/ ev.mode \in {"rand", "replay"}
+     \/ \A i \in 1..Len(Groups(ev.p)) : InitState(Groups(ev.p)[i]).rc.kernel = "seq"
 
 \* (skipping to the next program is done one line per step: a recursion over tens of thousands of
 \*  lines is very slow in TLC)
 
-Idle == [active |-> FALSE, run |-> 0, gs |-> <<>>, g |-> 0]
+Idle == [active |-> FALSE, run |-> 0, gs |-> <<>>, g |-> 0, sq |-> 0]
 
 TInit ==
   /\ l = 1
@@ -61,7 +65,7 @@ TProg ==
      THEN /\ LET s == InitState(Groups(Ev.p)[1])
              IN  /\ prog' = s.prog /\ pe' = s.pe /\ rc' = s.rc /\ counter' = s.counter /\ gate' = s.gate
                  /\ sp' = s.sp /\ wk' = s.wk /\ bag' = s.bag /\ result' = s.result /\ mon' = s.mon
-          /\ tf' = [active |-> TRUE, run |-> Ev.run, gs |-> Groups(Ev.p), g |-> 1]
+          /\ tf' = [active |-> TRUE, run |-> Ev.run, gs |-> Groups(Ev.p), g |-> 1, sq |-> 0]
           /\ Step1
      ELSE /\ UNCHANGED vars
           /\ tf' = Idle
@@ -80,7 +84,8 @@ TNextGroup ==
   /\ LET s == InitState(tf.gs[tf.g + 1])
      IN  /\ prog' = s.prog /\ pe' = s.pe /\ rc' = s.rc /\ counter' = s.counter /\ gate' = s.gate
          /\ sp' = s.sp /\ wk' = s.wk /\ bag' = s.bag /\ result' = s.result /\ mon' = s.mon
-  /\ tf' = [tf EXCEPT !.g = @ + 1]
+  /\ (rc.kernel = "seq" => tf.sq = Len(CallsOf(pe)))       \* a sequential group has made all its calls
+  /\ tf' = [tf EXCEPT !.g = @ + 1, !.sq = 0]
   /\ UNCHANGED l
 
 \* events that do not change the protocol state
@@ -133,11 +138,26 @@ TFirstCall ==
 TOtherCall ==
   /\ IsEv("call")
   /\ ~(Ev.a >= 1 /\ Ev.s = FirstStage(prog))
+  /\ rc.kernel # "seq" \/ Ev.s = KeyStage
+  \* (a call of the calling thread after a materialising run has finished belongs to the next,
+  \*  sequential, group: TNextGroup must be taken first)
+  /\ ~(Ev.a = 0 /\ Ev.s # KeyStage /\ tf.g < Len(tf.gs) /\ GroupComplete)
   /\ \/ Ev.a = 0
      \/ Ev.s = KeyStage
      \/ /\ Ev.a >= 1 /\ Ev.a <= MaxW /\ wk[Ev.a].pc = "hold"
         /\ \E i \in 1..Len(pe[wk[Ev.a].cur + 1].calls) : pe[wk[Ev.a].cur + 1].calls[i] = <<Ev.s, Ev.k, Ev.v>>
   /\ Step1 /\ UNCHANGED <<vars, tf>>
+
+\* sequential mode (the `seq` kernel): the calling thread makes exactly the calls of the std::iter
+\* chain, depth first and lazily, in that order (a find-like terminal makes a prefix of them)
+TSeqCall ==
+  /\ IsEv("call")
+  /\ rc.kernel = "seq" /\ Ev.s # KeyStage /\ Ev.a = 0
+  /\ tf.sq < Len(CallsOf(pe))
+  /\ CallsOf(pe)[tf.sq + 1] = <<Ev.s, Ev.k, Ev.v>>
+  /\ Step1
+  /\ tf' = [tf EXCEPT !.sq = @ + 1]
+  /\ UNCHANGED vars
 
 TWEnd ==
   /\ IsEv("wend")
@@ -156,7 +176,7 @@ TWPanic ==
 TTePanic ==
   /\ IsEv("te")
   /\ Ev.kind = "panic"
-  /\ SJoin
+  /\ SJoin \/ SSeqPanic
   /\ result'[1] = "panic"
   /\ Step1 /\ UNCHANGED tf
 
@@ -179,13 +199,14 @@ ResultAgrees(r) ==
         [] k \in ReduceTerms ->
              IF r = <<>> THEN (Ev.found = 0 \/ k \in {"fold", "sum"})
              ELSE Ev.found = 1
-                  /\ (OpOfTerm(prog) \in {"add", "xor", "min", "max"} => Ev.rv[1] = LeftFold(OpOfTerm(prog), Vals(r)))
+                  /\ (OpOfTerm(prog) \in {"add", "xor", "min", "max"} \/ rc.kernel = "seq" => Ev.rv[1] = LeftFold(OpOfTerm(prog), Vals(r)))
         [] OTHER -> TRUE
 
 TTe ==
   /\ IsEv("te")
   /\ tf.g = Len(tf.gs)
   /\ Ev.kind # "panic"
+  /\ (rc.kernel = "seq" /\ prog.term.k \in FullTerms) => tf.sq = Len(CallsOf(pe))
   /\ SJoin \/ SSeq
   /\ result'[1] = "ok" /\ ResultAgrees(result'[2])
   /\ Step1 /\ UNCHANGED tf
@@ -202,7 +223,7 @@ TEnd ==
 Strict ==
   /\ tf.active
   /\ \/ TNextGroup \/ TStutter \/ TRunBegin \/ TPreDecide \/ TPreChunk \/ TWBegin \/ TBeforeJoin
-     \/ TFirstCall \/ TOtherCall \/ TWEnd \/ TWPanic \/ TTe \/ TTePanic \/ TEnd
+     \/ TFirstCall \/ TOtherCall \/ TSeqCall \/ TWEnd \/ TWPanic \/ TTe \/ TTePanic \/ TEnd
 
 Reject ==
   /\ tf.active
